@@ -129,9 +129,9 @@ def covOf (op : Op) (st st' : St) : List String :=
     ["COV inc"] ++ (if ds.any (fun v => (st.vols s v.key.disk v.id).isNone) then ["COV inc.delete-unregistered"] else [])
       ++ (if ns.any (fun v => (st.vols s v.key.disk v.id).isSome) then ["COV inc.new-already-registered"] else [])
   | .ecfull s es =>
-    ["COV ecfull"] ++ (if ((ecOf st s).filter fun e => (actualBits es e.2.1) != some e.2.2).length ≥ 2 then ["COV ecfull.two-changed"] else [])
+    ["COV ecfull"] ++ (if ((st.toCore.ecOf s).filter fun e => (actualBits es e.2.1) != some e.2.2).length ≥ 2 then ["COV ecfull.two-changed"] else [])
   | .ecinc .. => ["COV ecinc"]
-  | .disc s => if (ecOf st s).isEmpty then ["COV disc"] else ["COV disc", "COV disc.with-ec"]
+  | .disc s => if (st.toCore.ecOf s).isEmpty then ["COV disc"] else ["COV disc", "COV disc.with-ec"]
   | .refresh => if (st.keys.any fun k => (st.wr k).length != (st'.wr k).length) then ["COV refresh.removed"] else ["COV refresh"]
 
 /-- `judge obs dst` = the violated facts (kind, detail) of the implementation's observable state -/
